@@ -34,31 +34,65 @@ import (
 )
 
 type tmpl struct {
-	Name string
-	Body string // handler body; may call gate(n)
+	Name   string
+	Body   string // handler body; may call gate(n)
+	Server string // alternative: a whole script building $server (middlewares + route /p); requests go through its mux
+}
+
+// view template used by the "view-render" handler: the same variable is interpolated before and
+// after a gate inside the template
+const viewTemplate = `<p>A:{$name}</p>
+<script type="text/zy">
+gate(1);
+</script>
+<p>B:{$name}</p>`
+
+var viewPath string
+
+func viewFile() string {
+	if viewPath == "" {
+		dir, err := os.MkdirTemp("/dev/shm", "c11-view-")
+		if err != nil {
+			panic(err)
+		}
+		viewPath = dir + "/page.html"
+		os.WriteFile(viewPath, []byte(viewTemplate), 0o644)
+	}
+	return viewPath
 }
 
 // Handler bodies. Output goes through several $w->write calls so that no string-concatenation
 // operator is involved.
 var templates = []tmpl{
-	{"locals-loop", `$s = 0; for ($i = 0; $i < 3; $i++) { $s = $s + $i + toint($r->input("n")); gate(1); } $w->write("s="); $w->write($s);`},
-	{"array-build", `$a = []; $a[] = $r->input("n"); gate(1); $a[] = $r->input("n"); gate(2); $w->write(json_encode($a));`},
-	{"object-prop", `$o = new stdClass(); $o->v = $r->input("n"); gate(1); $w->write("v="); $w->write($o->v);`},
-	{"closure-call", `$n = $r->input("n"); $f = function($x) use ($n) { gate(1); return $x; }; $w->write($f($n)); gate(2); $w->write($f($n));`},
-	{"status-header", `$w->header("X-Echo", $r->input("n")); gate(1); $w->status(200 + toint($r->input("n"))); gate(2); $w->write($r->input("n"));`},
-	{"GET-twice", `$a = $_GET["n"]; gate(1); $b = $_GET["n"]; $w->write($a); $w->write("|"); $w->write($b);`},
-	{"POST-twice", `$r->parseForm(); $a = $_POST["p"]; gate(1); $b = $_POST["p"]; $w->write($a); $w->write("|"); $w->write($b);`},
-	{"COOKIE-twice", `$a = $_COOKIE["c"]; gate(1); $b = $_COOKIE["c"]; $w->write($a); $w->write("|"); $w->write($b);`},
-	{"SERVER-twice", `$a = $_SERVER["QUERY_STRING"]; gate(1); $b = $_SERVER["QUERY_STRING"]; $w->write($a); $w->write("|"); $w->write($b);`},
-	{"REQUEST-merge", `$r->parseForm(); $a = $_REQUEST["n"]; gate(1); $b = $_REQUEST["p"]; gate(2); $c = $_REQUEST["c"]; $w->write($a); $w->write("|"); $w->write($b); $w->write("|"); $w->write($c);`},
-	{"GET-once-late", `gate(1); $w->write($_GET["n"]);`},
-	{"request-object", `$a = $r->input("n"); gate(1); $b = $r->header("X-Id"); gate(2); $c = $r->method(); $w->write($a); $w->write("|"); $w->write($b); $w->write("|"); $w->write($c);`},
-	{"json-response", `$a = ["n" => $r->input("n")]; gate(1); $w->json($a);`},
-	{"echo-output", `echo "e", $r->input("n"); gate(1); $w->write("w"); $w->write($r->input("n"));`},
+	{Name: "locals-loop", Body: `$s = 0; for ($i = 0; $i < 3; $i++) { $s = $s + $i + toint($r->input("n")); gate(1); } $w->write("s="); $w->write($s);`},
+	{Name: "array-build", Body: `$a = []; $a[] = $r->input("n"); gate(1); $a[] = $r->input("n"); gate(2); $w->write(json_encode($a));`},
+	{Name: "object-prop", Body: `$o = new stdClass(); $o->v = $r->input("n"); gate(1); $w->write("v="); $w->write($o->v);`},
+	{Name: "closure-call", Body: `$n = $r->input("n"); $f = function($x) use ($n) { gate(1); return $x; }; $w->write($f($n)); gate(2); $w->write($f($n));`},
+	{Name: "status-header", Body: `$w->header("X-Echo", $r->input("n")); gate(1); $w->status(200 + toint($r->input("n"))); gate(2); $w->write($r->input("n"));`},
+	{Name: "GET-twice", Body: `$a = $_GET["n"]; gate(1); $b = $_GET["n"]; $w->write($a); $w->write("|"); $w->write($b);`},
+	{Name: "POST-twice", Body: `$r->parseForm(); $a = $_POST["p"]; gate(1); $b = $_POST["p"]; $w->write($a); $w->write("|"); $w->write($b);`},
+	{Name: "COOKIE-twice", Body: `$a = $_COOKIE["c"]; gate(1); $b = $_COOKIE["c"]; $w->write($a); $w->write("|"); $w->write($b);`},
+	{Name: "SERVER-twice", Body: `$a = $_SERVER["QUERY_STRING"]; gate(1); $b = $_SERVER["QUERY_STRING"]; $w->write($a); $w->write("|"); $w->write($b);`},
+	{Name: "REQUEST-merge", Body: `$r->parseForm(); $a = $_REQUEST["n"]; gate(1); $b = $_REQUEST["p"]; gate(2); $c = $_REQUEST["c"]; $w->write($a); $w->write("|"); $w->write($b); $w->write("|"); $w->write($c);`},
+	{Name: "GET-once-late", Body: `gate(1); $w->write($_GET["n"]);`},
+	{Name: "request-object", Body: `$a = $r->input("n"); gate(1); $b = $r->header("X-Id"); gate(2); $c = $r->method(); $w->write($a); $w->write("|"); $w->write($b); $w->write("|"); $w->write($c);`},
+	{Name: "json-response", Body: `$a = ["n" => $r->input("n")]; gate(1); $w->json($a);`},
+	{Name: "view-render", Body: `$d = ["name" => $r->input("n")]; gate(2); $w->view("@VIEW@", $d);`},
+	{Name: "middleware-after-next", Server: `$server = new Net\Http\Server('127.0.0.1', 0);
+$server->middleware(function($r, $w, $next) { $w->header("X-Echo", $r->input("n")); gate(1); $next($r, $w); gate(2); $w->write("|t:"); $w->write($r->input("n")); });
+$server->post('/p', function($r, $w) { $w->write("h:"); gate(3); $w->write($r->input("n")); });`},
+	{Name: "two-middlewares", Server: `$server = new Net\Http\Server('127.0.0.1', 0);
+$server->middleware(function($r, $w, $next) { $w->write("<a"); $w->write($r->input("n")); $next($r, $w); gate(1); $w->write("a>"); }, 1);
+$server->middleware(function($r, $w, $next) { $w->write("<b"); gate(2); $next($r, $w); $w->write($r->input("n")); $w->write("b>"); }, 2);
+$server->post('/p', function($r, $w) { $w->status(200 + toint($r->input("n"))); gate(3); $w->write("H"); });`},
+	{Name: "echo-output", Body: `echo "e", $r->input("n"); gate(1); $w->write("w"); $w->write($r->input("n"));`},
 }
 
 func script(t tmpl) string {
-	return "$h = function($r, $w) {\n  " + t.Body + "\n};\n"
+	if t.Server != "" {
+		return t.Server + "\n"
+	}
+	return "$h = function($r, $w) {\n  " + strings.ReplaceAll(t.Body, "@VIEW@", viewFile()) + "\n};\n"
 }
 
 func request(k int) *nh.Request {
@@ -85,7 +119,7 @@ func (r resp) String() string {
 
 type server struct {
 	sess *runner.Session
-	h    ohttp.Handler
+	h    nh.Handler
 	err  string
 }
 
@@ -98,6 +132,20 @@ func newServer(t tmpl) *server {
 	sv := &server{sess: s}
 	if res.Kind != "ok" {
 		sv.err = "define:" + res.Kind + ":" + res.Msg + res.PanicKey
+		return sv
+	}
+	if t.Server != "" {
+		cv, _ := s.Var("server").(*data.ClassValue)
+		if cv == nil {
+			sv.err = "server object not found"
+			return sv
+		}
+		mux, _ := cv.GetSource().(*nh.ServeMux)
+		if mux == nil {
+			sv.err = "mux not reachable"
+			return sv
+		}
+		sv.h = mux
 		return sv
 	}
 	fv, _ := s.Var("h").(*data.FuncValue)
@@ -323,12 +371,20 @@ func main() {
 	}
 	c := ev.New("C11")
 	defer runner.Cleanup()
+	defer func() {
+		if viewPath != "" {
+			os.RemoveAll(viewPath[:len(viewPath)-len("/page.html")])
+		}
+	}()
 	if c.Replay != "" {
 		replay(c)
 		return
 	}
 	var scs []scenario
 	for _, t := range templates {
+		if only := os.Getenv("C11_ONLY"); only != "" && only != t.Name {
+			continue
+		}
 		// templates that read superglobals share one cached object between requests (a listed
 		// finding): its mutex makes the interleaving space large, so they get smaller bounds
 		heavy := strings.Contains(t.Body, "$_")
@@ -396,7 +452,7 @@ func main() {
 	c.Set("per_scenario", per)
 	c.Assume("requests are served through nethttp.Handler.ServeHTTP on one shared VM/closure exactly as ServerHandleMethod wires them; the TCP/net/http layer below is not part of the explored state")
 	c.Assume("more than 3 overlapping requests and shared state in packages that govis does not instrument are outside the bound")
-	c.Finish(int64(outcomes), execs, execs, "14 handler templates x {2 requests unbounded at gate granularity, 2 requests preemption bound 2 at shared-access granularity (thorough: 3 requests, bound 3)}; every interleaving; each response compared with the same request served alone; states = distinct response vectors")
+	c.Finish(int64(outcomes), execs, execs, "17 handler templates x {2 requests unbounded at gate granularity, 2 requests preemption bound 2 at shared-access granularity (thorough: 3 requests, bound 3)}; every interleaving; each response compared with the same request served alone; states = distinct response vectors")
 }
 
 func replay(c *ev.Check) {
